@@ -13,6 +13,11 @@
 (*            displayed w cells wide, its width stated or left to be        *)
 (*            measured, is accepted iff all its w columns are);             *)
 (*   layout   a text helper did not place the clusters as TextLayout says.  *)
+(* What a cell displays: a cell covered by the second (third ...) column of *)
+(* a glyph wider than one cell displays that glyph, in the glyph's style:   *)
+(* it changes when the glyph or the glyph's style does (Shown).  Set-style  *)
+(* rounds may find such glyphs on the screen (put there before the          *)
+(* snapshot, read from the snapshot).                                       *)
 (* Many scenarios per file ("reset" starts one).  Every rejected round is   *)
 (* reported with one REJECT line; rounds are independent (each starts from  *)
 (* a fresh snapshot), so the rest of the scenario is still judged, except   *)
@@ -29,7 +34,19 @@ Init == l = 1 /\ t = InitTerm(1, 1, FALSE) /\ base = t.grid /\ unk0 = 0 /\ faile
 Pen(bg) == [DefaultPen EXCEPT !.bg = bg]
 At(grid, x, y) == grid[y + 1][x + 1]
 ScreenCells(tt) == (0..(tt.cols - 1)) \X (0..(tt.rows - 1))
-Diff(tt, b) == {p \in ScreenCells(tt) : At(b, p[1], p[2]) # At(tt.grid, p[1], p[2])}
+(* The columns (0-based) of the glyph that covers column x of row y: the    *)
+(* cell that holds it and the continuation cells that follow.               *)
+HeadX(grid, x, y) ==
+  IF At(grid, x, y).k = "c" /\ \E h \in 0..x : At(grid, h, y).k # "c"
+  THEN HeadOf(grid[y + 1], x + 1) - 1 ELSE x
+SpanX(grid, x, y) ==
+  LET h == HeadX(grid, x, y)
+      n == Len(grid[y + 1])
+  IN {h} \cup {i \in (h + 1)..(n - 1) : \A m \in (h + 1)..i : At(grid, m, y).k = "c"}
+Shown(grid, x, y) ==
+  LET h == HeadX(grid, x, y)
+  IN IF h = x THEN At(grid, x, y) ELSE [k |-> "c", of |-> At(grid, h, y), nth |-> x - h]
+Diff(tt, b) == {p \in ScreenCells(tt) : Shown(b, p[1], p[2]) # Shown(tt.grid, p[1], p[2])}
 
 (* Which way a cell left the rectangle (for the rejection signature). *)
 Side(rc, p) == IF IsEmpty(rc) THEN "hidden"
@@ -48,8 +65,22 @@ LandingOK(e, W, D) ==
             /\ D = (IF acc THEN {<<x, y>>} ELSE {})
             /\ acc => At(t.grid, x, y) = Marker(e.mk)
        [] e.op = "style" ->
-            /\ D = (IF acc THEN {<<x, y>>} ELSE {})
-            /\ acc => At(t.grid, x, y) = [At(base, x, y) EXCEPT !.st = Pen(e.mk[3])]
+            \* sp: the cells of the glyph the addressed cell displayed (itself, when narrow).  The
+            \* style of a glyph is the style of all its cells: one that is not wholly the window's
+            \* cannot be restyled by it (nothing states what else should happen: containment only,
+            \* judged as "escape"); one that is, addressed by its first column, is restyled whole, its
+            \* text left in place; addressed by another column, that or nothing
+            LET h  == HeadX(base, x, y)
+                sp == {<<i, y>> : i \in SpanX(base, x, y)}
+                was == At(base, h, y)
+                restyled == /\ D = sp
+                            /\ At(t.grid, h, y) = [was EXCEPT !.st = Pen(e.mk[3])]
+                            /\ \A p \in sp \ {<<h, y>>} : At(t.grid, p[1], p[2]) = Cont
+            IN IF ~acc THEN D = {}
+               ELSE IF was.k # "g" THEN D \subseteq sp
+               ELSE IF \E p \in sp : ~Inside(W.clip, p[1], p[2]) THEN D \subseteq sp
+               ELSE IF h = x THEN restyled
+               ELSE D = {} \/ restyled
        [] e.op \in {"setw", "set0"} ->
             \* a cell displayed e.mk[2] cells wide, the width stated ("setw") or left to be measured
             \* ("set0"; e.mk[2] is then the logged fact of the width this terminal gives the cluster):
